@@ -464,6 +464,7 @@ func runC17(c *Ctx) {
 				ctxErr = cl
 			}
 		})
+		var edgeFails []*ssa.Return // shape-based findings, superseded by the path-based evaluation below when it is possible
 		for _, in := range findInstrs(F, isReturn) {
 			ret := in.(*ssa.Return)
 			if F.Recover != nil && ret.Block() == F.Recover {
@@ -510,7 +511,7 @@ func runC17(c *Ctx) {
 							}
 						}
 						if !okNil || !okZero {
-							o.Fail(ret.Pos(), "the context's error is reported on an edge that has not established ctx.Err() != nil and n == 0 (a partial transfer would be reported as failed/unwritten)")
+							edgeFails = append(edgeFails, ret)
 						}
 					}
 				}
@@ -558,6 +559,11 @@ func runC17(c *Ctx) {
 						}
 					}
 				}
+				evAny := pp.valueAt(ret.Results[len(ret.Results)-1], len(pp.Instrs)-1)
+				if isCtxErr(evAny) && !(fired && zero) && !flagged[ret.Pos()] {
+					flagged[ret.Pos()] = true
+					o.Fail(ret.Pos(), "the context's error is reported on a path that has not established ctx.Err() != nil and n == 0 (a partial transfer would be reported as failed/unwritten)")
+				}
 				if !fired || !zero {
 					continue
 				}
@@ -566,6 +572,11 @@ func runC17(c *Ctx) {
 					flagged[ret.Pos()] = true
 					o.Fail(ret.Pos(), "with the context fired and nothing transferred, the operation does not return the context's error (ctx.Err()) but another value (%s)", ev.String())
 				}
+			}
+		}
+		if _, pok2 := enumPathsU(F, 6000); !pok2 {
+			for _, ret := range edgeFails {
+				o.Fail(ret.Pos(), "the context's error is reported on an edge that has not established ctx.Err() != nil and n == 0 (a partial transfer would be reported as failed/unwritten)")
 			}
 		}
 		if ctxErr == nil {
